@@ -72,7 +72,7 @@ let () =
            let err_f _ = "err" in
            let rule_f r c args = let r = int_of_nat r in
              ((if r < Array.length ctxf && ctxf.(r) then r :: c else c), Printf.sprintf "r%d(%s)" r (String.concat "," args)) in
-           let fuel = nat_of_int (200 * (String.length inp.bytes + 10) + 5000) in
+           let fuel = nat_of_int (50 * String.length inp.bytes + 2000) in
            let calls = ref [] in
            let lexer' v p rest = calls := (String.length inp.bytes - List.length rest) :: !calls; lexer v p rest in
            let go verbose =
@@ -83,6 +83,7 @@ let () =
              | Accept v -> "VALUE " ^ v | Reject -> "NONE" | Throw -> "THROW cvector capacity exceeded"
              | Crash c -> "CRASH " ^ crash_str c | OutOfFuel -> "FUEL" in
            let ((r1, s1), tr1) = go inp.verbose in
+           if r1 = OutOfFuel then print_string "RES LOOP\nCTX\nLEXCALLS\nERR 0\n\nENDERR\nRES2 LOOP\nERR2 0\n\nENDERR2\nRES3 LOOP\n" else begin
            Printf.printf "RES %s\n" (res_str r1);
            print_string "CTX"; List.iter (fun x -> Printf.printf " %d" x) (List.rev s1.ps_ctx); print_string "\n";
            print_string "LEXCALLS"; (if !lexkind = 0 then List.iter (fun x -> Printf.printf " %d" x) (List.rev !calls)); print_string "\n";
@@ -92,7 +93,7 @@ let () =
            Printf.printf "RES2 %s\n" (res_str r2);
            let e2 = String.concat "" (List.map (event_str nm g inp.bytes) tr2) in
            Printf.printf "ERR2 %d\n%s\nENDERR2\n" (String.length e2) e2;
-           Printf.printf "RES3 %s\n" (res_str r1)) (List.rev !inputs));
+           Printf.printf "RES3 %s\n" (res_str r1) end) (List.rev !inputs));
     print_string "ENDCASE\n"
   in
   (try
